@@ -70,6 +70,20 @@ def run(tier, seed):
         for nm, sp in ((f"tw{i}a", spec), (f"tw{i}b", twin)):
             ops.append({"op": "problem", "id": nm, "spec": {k: v for k, v in sp.items() if not k.startswith("_")}, "_tags": [tag]})
             ops.append({"op": "matrices", "id": nm, "tol": "1/10000"})
+    # many random events (counts around and between the powers of two 128, 256: anything that processes events in blocks must handle a last,
+    # partial block): small state and action spaces, every event with positive probability
+    for j, E_ in enumerate([127, 128, 129, 150, 257, 300] if tier == "quick" else [63, 64, 65, 127, 128, 129, 150, 200, 255, 256, 257, 300, 513]):
+        spec = gen.gen_spec(rng, S=rng.choice([2, 3]), A=2, E=E_, kind="random", denom=1024, R=10, edim=1, tiny=False, near_tie=False)
+        S_ = len(spec["nxt"])
+        for s_ in range(S_):
+            for a_ in range(2):
+                w = [1] * E_
+                for _ in range(1024 - E_):
+                    w[rng.randrange(E_)] += 1
+                spec["prob"][s_][a_] = [x / 1024 for x in w]
+        ops = jobs[j % W][0]
+        ops.append({"op": "problem", "id": f"ev{j}", "spec": {k: v for k, v in spec.items() if not k.startswith("_")}, "_tags": [f"many-events"]})
+        ops.append({"op": "matrices", "id": f"ev{j}", "tol": "1/10000"})
     HX = "mdpax.problems.perishable_inventory.hendrix_two_product.HendrixTwoProductPerishable"
     hk = {"max_useful_life": 2, "demand_poisson_mean_a": 0.5, "demand_poisson_mean_b": 0.5}
     ops = jobs[0][0]
